@@ -187,6 +187,26 @@ class Model(SOCModel):
                                                         affine_aux[s],
                                                         1, affine_in[s])
                             more_exp.append(exp_cone_constr)
+                    elif constr.xtype in 'XL' and constr.sum_axis is not False:
+                        affine_out = constr.affine_out * (1/constr.multiplier)
+                        affine_in = constr.affine_in.to_affine()
+                        aux_var = self.dvar(affine_in.shape, aux=True).to_affine()
+                        aux_sum = aux_var.sum(axis=constr.sum_axis)
+                        if constr.xtype == 'X':
+                            self.aux_constr.append(aux_sum + affine_out <= 0)
+                        else:
+                            self.aux_constr.append(affine_out - aux_sum <= 0)
+                        size = affine_in.size
+                        affine_in = affine_in.reshape((size, ))
+                        aux_var = aux_var.reshape((size, ))
+                        for s in range(size):
+                            if constr.xtype == 'X':
+                                exp_cone_constr = ExpConstr(constr.model,
+                                                            affine_in[s], aux_var[s], 1)
+                            else:
+                                exp_cone_constr = ExpConstr(constr.model,
+                                                            aux_var[s], affine_in[s], 1)
+                            more_exp.append(exp_cone_constr)
                     elif constr.xtype == 'X':
                         affine_out = constr.affine_out * (1/constr.multiplier)
                         exprs_list = rso_broadcast(constr.affine_in, affine_out)
